@@ -1,5 +1,5 @@
 PROP = {
-    "lean_modules": ["GunYu.Props.C14", "GunYu.Props.C14Proc", "GunYu.Props.C14Renumber", "GunYu.Props.C14Units"],
+    "lean_modules": ["GunYu.Props.C14", "GunYu.Props.C14Proc", "GunYu.Props.C14Renumber", "GunYu.Props.C14Units", "GunYu.Props.C14Sync", "GunYu.Props.C14Gen"],
     "audit_namespaces": ["GunYu.Props.C14"],
     "required_theorems": [
         "GunYu.Props.C14.rebuild_contiguous",
@@ -33,6 +33,17 @@ PROP = {
         "GunYu.Props.C14.unit_offsets_grow_from",
         "GunYu.Props.C14.resume_monotone_traffic_parsed",
         "GunYu.Props.C14.resume_monotone_process_parsed",
+        "GunYu.Props.C14.best_latest_is_max_end_offset",
+        "GunYu.Props.C14.sync_start_one_slot",
+        "GunYu.Props.C14.syncN_init_inv",
+        "GunYu.Props.C14.syncN_each_step_preserves",
+        "GunYu.Props.C14.sync_mode_exact_slots",
+        "GunYu.Props.C14.sync_mode_exact_slots_numbered",
+        "GunYu.Props.C14.gen_clone_eq",
+        "GunYu.Props.C14.gen_rebuild_eq_model",
+        "GunYu.Props.C14.gen_bestLatest_eq_model",
+        "GunYu.Props.C14.gen_rebuild_contiguous",
+        "GunYu.Props.C14.gen_rebuild_eq_model_nil",
     ],
     "gens": ["c17"],
     # Model/FrontierTraffic.lean (resume_monotone_traffic) lets no unit commit while a recovery request of the start is
@@ -72,6 +83,11 @@ PROP = {
             "(bounded and unbounded displacement), double / stale reports, flush ticks, gaps of 0..250 ms around the flush "
             "interval, runs longer than the unit-count threshold (the model takes both values from the code): in-memory frontier, pending, advanced and the requests after every event vs Lean `coordOnCommitted`/`coordFlush`; "
             "monitors: frontier = contiguous reported prefix, a journal record is deleted only after a frontier covering it was saved. "
+            "c14n (sync mode on a cluster-typed target, Model/FrontierSyncN.lean): the latest hashes of 0-6 slot tags (pool 0, 5, 866, 4000, 12182, 16383) hold leftovers of an earlier numbering - ANY sequence numbers, "
+            "own / previous / foreign run id, ending below / AT / (1 in 8: beyond) the root - then a script of 2-9 steps: r = a FRESH cluster-typed RedisOutput runs the real bisyncStartPoint (16384-tag scan), c<slot> = the real "
+            "execBisyncUnit(latestCheckpoint = true) - what sendBisyncSync does per unit - commits the unit that starts at the offset the process holds, numbered bisyncSeq+1, into the latest hash of <slot> (the commit's mtime is read back "
+            "and is an input of the model). Every start's answer and the final latest hashes vs Lean `syncNStep` / `startLatestN` (N = 16384); monitors without the model (leftovers not beyond the root): units applied are root, root+100, ... "
+            "each exactly once in order (syncn-unit-repeated-or-skipped), every start answers the end and the number of the last committed unit (syncn-start-not-last-committed). "
             "c14b: real LoadBisyncLatestStartRecord over 1-4 recovery slots (latest records with equal / different end offsets and mtimes, foreign ids, "
             "empty slots) vs Lean `bestLatest`. "
             "c14l (send loops): the REAL RedisOutput.StartPoint wrapper + the REAL sendAofBisync (parseAofReplayUnits, sendBisyncSync / sendBisyncPipeline / "
@@ -85,6 +101,10 @@ PROP = {
             "request each name a committed prefix (sampled from the double's connection goroutines while the loop stores the two one after the other: judged "
             "one by one; that both name the SAME unit is judged where the code reads them - after the loop returned and at the next StartPoint of the process); second StartPoint of the SAME process (fast path), and a third after a full resynchronisation moved the root "
             "forward (real ResetStartPoint + setCheckpoint): the new root, not the in-memory frontier; resumed run leaves no unit uncommitted. "
+            "MATRIX (enumerated, not sampled; source `matrix`): every mode (sync / pipeline / parallel) x every unit k of an n-unit stream (quick n = 3, thorough n = 2..4, both flush variants) x the three ways a unit's transaction goes wrong on the wire - "
+            "queued:<k> (a queued command refused: EXECABORT), cutexec:<k> (NEW: the connection is cut when the EXEC arrives, the transaction is NOT executed, no reply; vfdoubles DropAt, replayed as the prefix without that EXEC), "
+            "lostreply:<k> (EXEC executed, reply lost) x flush tick before the end or not; each case runs all of the above: EVERY request prefix -> fresh process, AND the same process starts again (c14p) and replays on; "
+            "counters loop_matrix_<mode>_<fault>, loop_matrix_fault_not_applicable must stay 0. "
             "Restarts INSIDE a process (Model/FrontierProc.lean): after EVERY kind of loop end (clean, settled, abrupt, stopped by a fault - fault kinds as above plus "
             "lostreply:<u> = the unit's EXEC is executed by the target and its reply never arrives, vfdoubles LoseReplyAt; with a stalled lane) the SAME RedisOutput "
             "calls StartPoint again: op c14p = real StartPoint of the live process vs Lean `pstart` (input: bisyncMissRunID / bisyncSeq / bisyncOffset read from the process + the "
@@ -107,9 +127,13 @@ PROP = {
             "the stalled lane is released: the target ends with the last value of every key (violation), no EXEC of the first loop after it returned (tie-shape). "
             "c14recoverloop: snapshot at unit 1 + journal 2, 3, StartPoint (clean-up) and the loop for units 4, 5 under one virtual clock: every request prefix -> "
             "fresh start never before the previous prefix's. "
-            "distinct_nontrivial = distinct (mode, #requests, journal size, index size) with clean-up / (#events, #requests) / advancing rebuilds / (mode, fast path, #requests, failing request, which start) of c14p",
+            "REGENERATED tie (generator c14, harness/extract/gofn_c14.go -> lean/GunYu/Gen/FnC14Frontier.lean on every run): RebuildBisyncFrontier as a whole (map, range loop, `for {}`, Clone, lazy ||, wrapping nextSeq++), "
+            "BisyncFrontierSnapshot.Clone and the selection part of LoadBisyncLatestStartRecord's loop are TRANSLATED from the Go source; gen_rebuild_eq_model / gen_bestLatest_eq_model / gen_clone_eq prove the translation equal to "
+            "`rebuild` / `bestLatest` for all int64 inputs, so an edit of those functions must keep the proofs alive (a construct outside the translator's subset = gen_errors = broken tie). "
+            "distinct_nontrivial = distinct (mode, #requests, journal size, index size) with clean-up / (#events, #requests) / advancing rebuilds / (mode, fast path, #requests, failing request, which start) of c14p / (#leftovers, #commits, #steps, monitored) of c14n",
     "trusted": ["target double harness/overlay/pkg/vfdoubles/target.go (HSET/HGETALL/DEL/ZADD/ZREM/ZRANGEBYSCORE/INFO keyspace/SELECT semantics of a standalone Redis; LoseReplyAt = request executed, connection closed without the reply)",
                 "vfLSock (vf_c14_loop_test.go): a send buffer between client and double - Write never blocks on the peer, Close delivers what is queued (what close(2) does on a TCP socket); used by c14linger2 only",
+                "the translator harness/extract/gofn_c14.go (about 700 lines: its reading of `*T` as Option T over the MODEL's structures Rec / Snap, of map[int64]*T as an association list (mapGet / mapSet, generated into the file), of `for {}` as recursion on a fuel argument, lazy || / &&, GoSem.addI for int64 +) - the differential ops c14r / c14b / c14n on the real code stay in place as the independent check of it",
                 "a unit's data, journal record and index entry are one MULTI/EXEC (dispatchBisyncUnit queues them on a TxnBatcher; C13/C18 check the batch) - modelled as the single request `commit`"],
     "assumptions": [
         "standalone target: one recovery slot (bisyncRecoverySlots() = [0]), every unit forced to slot 0; cluster mode (16384 slot tags, one index per slot, lanes on several nodes) is covered by the theorems about `rebuild` and the coordinator only",
@@ -125,6 +149,8 @@ PROP = {
         "ResetStartPoint's purge loads the journal filtered by {cfg.RunId, reader id, current ids} while `del frontier` is unconditional: records of a run id outside that list survive snapshot-less; they are invisible until that id is reported again, and then the root found under it is the old one (same numbering = the c14retry case)",
         "op c14p: the memory after a start WITHOUT root checkpoint (bisyncSeq 0 / offset -1) is tied by two fixed cases (c14rootless); `pstart` does not write seq / off into the memory on a successful start (the memory is read only after `stop` copied the coordinator's frontier, which starts as the answer) - the driver appends that `stop`; c14p with fail=k on a start that does not purge is not generated (formats differ there: it would show as a diff)",
         "RDB phase units (bisync_rdb.go, `rdb:` records) are outside the property (incremental replay)",
+        "sync mode over N slots (sync_mode_exact_slots): the leftovers in the latest hashes may carry ANY sequence numbers and any run ids but must not END beyond the root checkpoint (a root inside the old numbering's range is outside the theorem, as for renumber_spans; c14n generates it 1 in 8 and compares with the model only); the units of one execution are recorded under ONE run id that the source reports (rid, hrid); the unit boundaries are a function `next` of the position (World.e fixed, see above); a unit's commit is one atomic step (the MULTI/EXEC assumption above) that writes the latest hash of the UNIT'S slot only (dispatchBisyncUnit: tied by c14n's final dump of the latest hashes); the I/O part of LoadBisyncLatestStartRecord before the selection (one HGETALL per slot key in slot order, empty hashes skipped, parse errors abort) is tied by c14b / c14n, not translated",
+        "gen_rebuild_eq_model: sequence numbers in the int64 range (they are int64 in Go); gen_rebuild_eq_model_nil extends it to record slices WITH nil entries anywhere and to every fuel >= (non-nil records)+1 (advance_fix: a pigeonhole over the records numbered above the frontier; advance_stable); excluded - because there the code and `rebuild` of the non-nil records really differ - is a NON-empty slice of nil entries only (len(records) != 0, nothing is filed, minSeq stays 0: ErrBisyncJournalGap behind an absent / seq-0 snapshot, where `rebuild _ []` returns the snapshot; LoadBisyncCommitRecords never appends a nil entry and bisyncStartPoint treats both answers as a miss); ErrBisyncJournalGap is the Bool `true` (the function returns no other error)",
         "cluster: the model has one journal / index; several slot tags are covered by `rebuild` (any record list), c14b (best latest over slots) and the cluster-typed starts c14k (2-3 slot tags, the 16384-tag scan, purge / clean-up over a Go map of index keys: order-insensitive monitors with an explicit oracle, every write a crash point and a fault point) - no request-sequence comparison there",
         "reviewer's mutant m5 (lane worker ignores validateBisyncExecReplies) is behaviourally equivalent: txnBatcher.Receive already rejects EXECABORT and inner errors (common.CheckTxnRepliesError) before the validation is reached - verified with the queued / inner fault cases under the mutant",
     ],
@@ -132,7 +158,10 @@ PROP = {
         "monotonicity of the resume point along executions WITH traffic is PROVED for the split-queue system (resume_monotone_traffic over Model/FrontierTraffic.lean) and for the system with the memory of the process (resume_monotone_process over Model/FrontierProc.lean: same-process restarts answered by the frontier-miss fast path from memory or by the root without purge, loops that stop at any moment, a start whose purge fails and is retried, a clean-up that gives up): what a fresh start would resume from never decreases and names a committed prefix; what a start of the live process returns is a committed prefix (inprocess_answer_is_committed_prefix) and never below an earlier start of the same process (inprocess_start_never_below). Rests on: (1) the guard - no unit commits / is reported while a recovery request of the start is outstanding (source facts c14_start_sync / c14_startpoint_calls, monitor tie-shape:recovery-request-after-start-returned, the loops join what they sent: c14linger / c14linger2); (2) hypotheses: strictly growing end offsets (discharged for parsed streams: unit_offsets_grow), the source still reports the run id of the records (hvis), the initial state satisfies the invariant (a fresh namespace: traffic_init_inv / proc_init_inv; after a numbering restart: renumber_init_inv); (3) ONE numbering in PSys",
         "two numberings are spanned by renumber_spans (execution under W1, `resync`, execution under W2: the resume offset does not decrease across the restart, is monotone after it, and the sequence number counts units of the new numbering only) for FRESH-process starts; the invariant is stated up to `scrub` (records / snapshot no start can read, proved irrelevant: Proofs/FrontierScrub.lean) and needs unique journal keys (a keyspace is a map; preserved by every step). Not covered: the fast path across a numbering restart (see assumptions; tied by the new-root c14p starts and monitors), a root inside the old range, run-id changes inside W2 (W.ids fixed)",
         "OBSERVATION (liveness, outside C14): the wait e03e645 added to the pipeline loop (replies of every unit sent) has no bound - NewRedisConn ignores ctx, the standalone RedisConn has no read deadline, the cluster client no ReadTimeout: a target that keeps the connection open and never answers holds sendBisyncPipeline (and run(), Stop(), a leadership hand-over) for ever. Not a new class (before the fix <-receiveDone waited on a receiver in the same deadline-less Receive; sync mode and the parallel lanes block the same way); the fix widens it from the unit being received to window + 1 units. No harness case (vfLSock delivers or closes, never stalls for ever). Residual safety hole the wait does not close: a Receive that fails because the CONNECTION failed (RST / keep-alive expiry) while the bytes are in the socket buffer of a stalled target - the loop returns, the transaction is executed later: the same corner as the `crash` assumption",
-        "sync mode on a cluster (several latest records, root override without purge, rests on LoadBisyncLatestStartRecord ordering by end offset first): sync_mode_exact has one slot; c14b and the c14k sync cases check the real selection against an explicit oracle",
+        "sync mode on a cluster is now PROVED for any number of slots (sync_mode_exact_slots over Model/FrontierSyncN.lean: units in any slots, restarts that re-scan, any leftovers not ending beyond the root - root override without purge -, exactly-once in order, start = end and number of the last committed unit; best_latest_is_max_end_offset: the selection is by end offset; sync_start_one_slot bridges to sync_mode_exact) and tied by c14n. Still partial there: a crash is the atomic restart step (no request-level crash points inside a start: a sync start issues no write request), lost-reply / cut connections in sync mode are exercised by the matrix on the standalone configuration only, a source fail-over inside an execution (two run ids) is outside",
+        "REGENERATED: RebuildBisyncFrontier, Clone, the latest selection (Props/C14Gen.lean). NOT regenerated (hand model + correspondence only): LoadBisyncCommitRecords' filtering, cleanupRecoveredBisyncCommitRecords / purgeBisyncRecoveryState (they interleave I/O with the computation), bisyncFrontierCoordinator.onCommitted / flush (a struct with a SortedMap and a clock), bisyncStartPoint's branch structure, bisyncFrontierMissFastPath",
+        "renumber_spans x same-process restarts (focus item of session 5) is NOT done: the combination theorem is still false in the corner described under assumptions; PSys has one numbering",
+        "DECISION on the unbounded wait of e03e645: left as an OBSERVATION, no change to /repo. A bound needs a read deadline on conn.RedisConn (the `@TODO readTimeout` at redis_conn.go:29) or closing the connection when ctx ends; the first changes every blocking read of the client (PSYNC / RDB transfer / long commands of other outputs share the type), the second needs NewRedisConn to honour ctx (it ignores it today) - neither is small and safe, and both only trade the hang for the `crash` corner (the transaction still executes later on a stalled target)",
     ],
 }
 
@@ -144,9 +173,10 @@ MANIFEST = {
             "any number of stop/start cycles, each cut after any number of recovery requests, never moves the resume point backwards; "
             "the same with restarts INSIDE a process as steps (frontier-miss fast path answering from memory or by the root without purge, loops that stop, a purge that fails and is retried): "
             "the in-memory answer is a committed prefix and never below an earlier start of the process; one theorem spans a numbering restart (old execution, new root over any leftovers, new execution: "
-            "offset never decreases, units of the old numbering are never counted); end offsets grow with the unit number is proved from the parser model. "
+            "offset never decreases, units of the old numbering are never counted); end offsets grow with the unit number is proved from the parser model; sync mode over ANY number of cluster slots with leftovers of earlier numberings in other slots resumes exactly after the last committed unit (sync_mode_exact_slots); "
+            "RebuildBisyncFrontier, Clone and the latest-record selection are TRANSLATED from the Go source on every run and proved equal to the model (gen_rebuild_eq_model, gen_bestLatest_eq_model). "
             "Tied to the code by differential correspondence of the real RebuildBisyncFrontier, bisyncFrontierCoordinator (virtual time) and "
-            "bisyncStartPoint + clean-up against the target double with every request prefix replayed, StartPoint of a LIVE process (memory + namespace -> answer, requests, memory) vs `pstart`, plus independent monitors. "
+            "bisyncStartPoint + clean-up against the target double with every request prefix replayed, StartPoint of a LIVE process (memory + namespace -> answer, requests, memory) vs `pstart`, scripts of starts and real unit commits on a cluster-typed target vs `syncNStep`, an enumerated mode x unit x wire-fault matrix, plus independent monitors. "
             "Six defects found and fixed (e03e645: the pipeline send loop returned while transactions it had sent were unanswered - after an in-process restart the stale transaction overwrote newer data; D35: the parallel send loop returned while a lane could still commit - after an in-process restart the stale unit overwrote newer data; D12: recovery deleted journal records without saving the rebuilt frontier; D21: recovery keys read in the database GetCheckpoint visited last; D25: numbering restart over the stale frontier of the previous numbering skipped units; D26: journal gap made every start fail).",
     "note": "trusted: Lean kernel (propext, Classical.choice, Quot.sound only), target double, extractor, harness; models hand-written and tied by correspondence; the flush policy is a parameter of the model (FlushPolicy, any value), the run passes the code's values",
     "technique": "Lean 4 proof (fold invariants, transition-system invariant by induction over step lists) + differential correspondence over every request prefix (crash points) under virtual time",
